@@ -78,6 +78,9 @@ type ContractFile struct {
 	Order []string
 }
 
+// parseTier is set from the -tier flag before the contracts are read.
+var parseTier = "quick"
+
 var reLoop = regexp.MustCompile(`^loop\s+(\d+)\s*:\s*(\w+)\s*(.*)$`)
 
 func parseContractFile(path string) (*ContractFile, error) {
@@ -108,6 +111,14 @@ func parseContractFile(path string) (*ContractFile, error) {
 		// strip trailing comment  " // ..."
 		if k := strings.Index(body, " // "); k >= 0 {
 			body = strings.TrimSpace(body[:k])
+		}
+		// "thorough <clause>": the clause belongs to the thorough tier only (its obligations need a solver answer that is
+		// not comfortably inside the quick limit on a loaded machine)
+		if strings.HasPrefix(body, "thorough ") {
+			if parseTier != "thorough" {
+				continue
+			}
+			body = strings.TrimSpace(strings.TrimPrefix(body, "thorough "))
 		}
 		if strings.HasPrefix(body, "func ") || strings.HasPrefix(body, "lemma ") {
 			c, err := parseHeader(body)
